@@ -12,17 +12,20 @@ class CodecError(Exception):
 # ------------------------------------------------------------- bit packing
 def bitpack(values, width):
     """LSB-first packing; len(values) is padded to a multiple of 8 by the caller
-    when a hybrid bit-packed run is wanted."""
-    acc = 0
-    nbits = 0
-    for v in values:
-        if v < 0 or v >> width:
-            if width < 64 or v < 0:
+    when a hybrid bit-packed run is wanted.  Packed in groups of 8 values
+    (8 values of `width` bits fill exactly `width` bytes) to stay linear."""
+    out = bytearray()
+    values = list(values)
+    for g in range(0, len(values), 8):
+        acc = 0
+        nbits = 0
+        for v in values[g:g + 8]:
+            if v < 0 or (width < 64 and v >> width) or (width == 64 and v >> 64):
                 raise CodecError("value %d does not fit %d bits" % (v, width))
-        acc |= v << nbits
-        nbits += width
-    nbytes = (nbits + 7) // 8
-    return acc.to_bytes(nbytes, "little")
+            acc |= v << nbits
+            nbits += width
+        out += acc.to_bytes((nbits + 7) // 8, "little")
+    return bytes(out)
 
 
 def bitunpack(buf, pos, count, width):
@@ -30,9 +33,17 @@ def bitunpack(buf, pos, count, width):
     nbytes = (count * width + 7) // 8
     if pos + nbytes > len(buf):
         raise CodecError("bit-packed run needs %d bytes, %d available" % (nbytes, len(buf) - pos))
-    acc = int.from_bytes(buf[pos:pos + nbytes], "little")
     mask = (1 << width) - 1
-    out = [(acc >> (i * width)) & mask for i in range(count)]
+    out = []
+    p = pos
+    left = count
+    while left > 0:
+        k = min(8, left)
+        nb = (k * width + 7) // 8
+        acc = int.from_bytes(buf[p:p + nb], "little")
+        out.extend((acc >> (i * width)) & mask for i in range(k))
+        p += width if k == 8 else nb
+        left -= k
     return out, pos + nbytes
 
 
